@@ -39,8 +39,8 @@ def run(res):
                                "signature": "slow-writer:panic"})
     for c in sw or []:
         if c.get("oracle_fail"):
-            res.violations.append({"what": c["oracle_fail"], "case": c, "family": "slow-writer", "signature": "slow-writer:%d" % c["size"]})
-    res.add_cov(slow_writer_cases=[{k: c[k] for k in ("stall_ms", "size", "messages", "big_ok", "small_ok")} for c in sw or []])
+            res.violations.append({"what": c["oracle_fail"], "case": c, "family": "slow-writer", "signature": "slow-writer:%s:%d" % ("drain" if c.get("slow_drain") else "stall", c["size"])})
+    res.add_cov(slow_writer_cases=[{k: v for k, v in c.items() if k not in ("oracle_fail", "err")} for c in sw or []])
     # the table itself, for the evidence
     rows = open(vlib.COQ + "/gen/LockTable.v").read()
     nrows = rows.count('%Z)')
